@@ -436,3 +436,34 @@ PROPS["C19"] = {
     "assumptions": ["the rule 'valid <=> error_norm < tol' is deliberately not part of the oracle", "a supplied component that cannot influence the decision vector (e.g. gradient w.r.t. an unflagged end point) is invisible to any self-check and is not judged",
                     "default (eps,tol) on problems whose gradients are too large for a 1e-4 absolute tolerance is outside the judged domain (DESIGN s8, O2)"],
 }
+
+# ---------------------------------------------------------------------------------------------
+# schedules / races / workspace reuse: C12 (+C12r under TSan), C10o
+for o in OPT_ORDERS:
+    T("opt_sched_o%d_d2" % o, "opt_sched.cpp", defs=["VORDER=%d" % o, "VDIM=2"], cflags=["-fopenmp"], libs=["-fopenmp"])
+    T("opt_race_o%d_d2" % o, "opt_sched.cpp", defs=["VORDER=%d" % o, "VDIM=2", "VRACE=1"], san="tsan", libs=["-pthread"])
+T("opt_sched_o5_d3", "opt_sched.cpp", defs=["VORDER=5", "VDIM=3"], cflags=["-fopenmp"], libs=["-fopenmp"])
+for o in OPT_ORDERS:
+    OPT_C10_JOBS.extend(split("opt_sched_o%d_d2" % o, 400, 1, prop="C10o"))
+
+
+def _c12_jobs(tier):
+    out = []
+    for o in OPT_ORDERS:
+        out += split("opt_sched_o%d_d2" % o, 1200 if tier == "quick" else 60000, 2 if tier == "quick" else 3, prop="C12")
+        out += split("opt_race_o%d_d2" % o, 240 if tier == "quick" else 12000, 2 if tier == "quick" else 2, prop="C12r")
+    out += split("opt_sched_o5_d3", 600 if tier == "quick" else 30000, 1, prop="C12")
+    return out
+
+
+PROPS["C12"] = {
+    "jobs": _c12_jobs,
+    "floor_quick": 4000, "floor_thorough": 200000,
+    "rule": "[schedules, ASan build] order x N in 1..8 x flags x K x energy weight x cost programs with explicit time dependence: the serial result is compared bitwise (cost, gradient, workspace spline) with EVERY permutation of the segment order for N <= 5 "
+            "(1+2+6+24+120 schedules), generated permutations above, std::thread executors with generated partitions into 1..8 chunks (incl. empty and singleton chunks) over generated orders, and the bundled OpenMPExecutor with 1/2/3/8 threads. "
+            "[races, TSan build, C12r] 2..8 threads start together on ONE configured optimizer (freshly configured, copied, or re-flagged just before; with no prior single-threaded call or after getDimension / generateInitialGuess / evaluate), each with its own workspace "
+            "and its own decision vector (differing also in the boundary-derivative block), inner executor serial or threaded; any ThreadSanitizer report is a violation, and every thread's result must equal bitwise the same call made sequentially afterwards. "
+            "non-trivial = N >= 2 (schedules) / no prior single-threaded call (races)",
+    "tolerances": {"all comparisons": "bitwise"},
+    "assumptions": ["ThreadSanitizer observes the executions it is given; it reports unsynchronised conflicting accesses without needing the unlucky interleaving, but cannot prove absence"],
+}
